@@ -287,7 +287,10 @@ pub const FIXED_INTER: &[&str] = &[
     "xy^0", "1/3x^3", "x^-2 + x^-3", "ab + ba", "X + t^2",
 ];
 pub const FIXED_SIMPLE: &[&str] =
-    &["5", "x^3 + x^2", "x", "", "0", "-x", "3x^2 - 2x + 1", "x^0", "2.5y^4 - y + .5", "t^9", "x^2 + x^2", "7 - 7", "4x^1"];
+    &[
+    // the largest exponents the parser accepts (MAX_POWER = 65536) and its neighbours
+    "x^65536", "3x^65535 + x", "x^65537", "2y^065536 - y^65535",
+    "5", "x^3 + x^2", "x", "", "0", "-x", "3x^2 - 2x + 1", "x^0", "2.5y^4 - y + .5", "t^9", "x^2 + x^2", "7 - 7", "4x^1"];
 
 pub fn parse_inter(text: &str) -> Option<AnyPoly> {
     catch(|| IntermediatePolynomial::parse(text)).and_then(|r| r.ok()).map(AnyPoly::I)
